@@ -209,7 +209,7 @@ fn real_main(args: &[String]) -> i32 {
             println!("report: {:?}", r.report);
             println!("steps={} choice_points={} digest={:016x} harness_error={:?}", r.steps, r.choice_points, r.digest, r.harness_error);
             for s in &r.stats {
-                println!("counters: {:?} buggify: {:?} par_calls={} tls={}/{}", s.counters, s.buggify_fired, s.par_calls, s.tls_inits, s.tls_reuse);
+                println!("counters: {:?} buggify: {:?} par_calls={} tls={}/{} fault_points={:?} fired={:?}", s.counters, s.buggify_fired, s.par_calls, s.tls_inits, s.tls_reuse, s.fault_points_seen, s.faults_fired);
             }
             0
         }
